@@ -74,7 +74,11 @@ class Node:
     def __add__(self, other):
         self.neighbors[other] = None
         other.neighbors[self] = None
-        self._update()
+        # A single pass builds each table from the neighbors' ones, which may
+        # still be outdated when the graph contains cycles. Iterate until
+        # every table is stable to get the shortest routes.
+        while self._update():
+            pass
         return other
 
     @property
@@ -82,6 +86,8 @@ class Node:
         return [self.path(node_name)[-1] for node_name in self.routes.keys()] + [self]
 
     def _update(self, already_updated=None):
+
+        previous = {k: (r.direction, r.steps) for k, r in self.routes.items()}
 
         self.routes = {}
         for node in self.neighbors:
@@ -113,10 +119,16 @@ class Node:
 
         already_updated.add(self)
 
+        changed = previous != {
+            k: (r.direction, r.steps) for k, r in self.routes.items()
+        }
+
         # Recursive update (with lock)
         for node in self.neighbors:
             if node not in already_updated:
-                node._update(already_updated)
+                changed |= node._update(already_updated)
+
+        return changed
 
     def path(self, goal):
         """Get the shortest way between two nodes of the graph
